@@ -132,6 +132,10 @@ def run(ctx, res):
                       "some combination reaches the internal raise or is unhandled" % fi.short, construct="%s case split" % fi.short)
     from ..confinement import numeric_rejections
     res.count("numeric rejections", numeric_rejections(ctx, res, "R2.5", hs + helpers, "flat x body handlers and hit-set helpers"))
+    # R2.6 the hits are merged by Point equality / hash, never by raw coordinates
+    from ..exact import report_coordinate_keys
+    k6 = report_coordinate_keys(ctx, res, "R2.6", hs + helpers, "the intersection code")
+    ctx.require(res, "R2.6", k6, 10, "functions of the intersection code scanned")
     # R2.4 the membership tests that clip every hit (`hit in cpg`, `end point in cph`) are inclusive at the boundary
     from .c05 import r55_inclusive_thresholds
     r55_inclusive_thresholds(ctx, res, cnames=("ConvexPolygon", "ConvexPolyhedron"), rule="R2.4", minimum=1)
